@@ -305,5 +305,5 @@ func runC06(c C06Case) *Result {
 }
 
 func TestC06(t *testing.T) {
-	runSpec(t, Spec[C06Case]{ID: "C06", Gen: genC06, Run: runC06})
+	runSpec(t, Spec[C06Case]{ID: "C06", Gen: genC06, Run: runC06, Pre: preScaleC06})
 }
